@@ -31,21 +31,31 @@ VARIABLES run, init, prog, res
 vars == <<run, init, prog, res>>
 
 \* an enumeration: longest program, token alphabet, initial stacks, configurations
+\* and the way programs grow:
+\*   "all"   every token extends every program that is alive (exhaustive)
+\*   "alive" only extensions that leave a configuration alive (TLC -simulate:
+\*           long random programs that keep running)
+\*   "skip"  the program starts with OP_0 OP_IF: the remaining tokens are in a
+\*           branch that is not executed
+R(len, alpha, ini, cfg, grow) == [len |-> len, alpha |-> alpha, init |-> ini, cfg |-> cfg, grow |-> grow]
 RunDef(r) ==
-    CASE r = "small3" -> [len |-> 3, alpha |-> "small",  init |-> "empty", cfg |-> "quick"]
-      [] r = "unitq"  -> [len |-> 1, alpha |-> "all",    init |-> "unitq", cfg |-> "quick"]
-      [] r = "core2"  -> [len |-> 2, alpha |-> "core",   init |-> "empty", cfg |-> "std"]
-      [] r = "lock"   -> [len |-> 1, alpha |-> "lock",   init |-> "lock",  cfg |-> "lock"]
-      [] r = "sigu"   -> [len |-> 1, alpha |-> "sigops", init |-> "sig",   cfg |-> "std"]
-      [] r = "sig2"   -> [len |-> 2, alpha |-> "sig",    init |-> "sig1",  cfg |-> "std"]
+    CASE r = "small3" -> R(3, "small",  "empty", "quick", "all")
+      [] r = "unitq"  -> R(1, "all",    "unitq", "quick", "all")
+      [] r = "core2"  -> R(2, "core",   "empty", "std",   "all")
+      [] r = "lock"   -> R(1, "lock",   "lock",  "lock",  "all")
+      [] r = "sigu"   -> R(1, "sigops", "sig",   "std",   "all")
+      [] r = "sig2"   -> R(2, "sig",    "sig1",  "std",   "all")
+      [] r = "skip3"  -> R(3, "all",    "empty", "quick", "skip")
+      [] r = "sim"    -> R(40, "small", "empty", "quick", "alive")
       \* thorough tier
-      [] r = "core3"  -> [len |-> 3, alpha |-> "core",   init |-> "empty", cfg |-> "std"]
-      [] r = "sig3"   -> [len |-> 3, alpha |-> "sig",    init |-> "sig1",  cfg |-> "std"]
-      [] r = "unit"   -> [len |-> 1, alpha |-> "all",    init |-> "rich2", cfg |-> "std"]
-      [] r = "small4" -> [len |-> 4, alpha |-> "small",  init |-> "empty", cfg |-> "quick"]
-      [] r = "core2m" -> [len |-> 2, alpha |-> "core",   init |-> "mid1",  cfg |-> "std"]
+      [] r = "core3"  -> R(3, "core",   "empty", "std",   "all")
+      [] r = "sig3"   -> R(3, "sig",    "sig1",  "std",   "all")
+      [] r = "unit"   -> R(1, "all",    "mid2",  "std",   "all")
+      [] r = "small4" -> R(4, "small",  "empty", "quick", "all")
+      [] r = "core2m" -> R(2, "core",   "mid1",  "std",   "all")
+      [] r = "simcore" -> R(40, "core", "empty", "std",   "alive")
       \* development
-      [] r = "dev"    -> [len |-> 2, alpha |-> "core",   init |-> "empty", cfg |-> "std"]
+      [] r = "dev"    -> R(2, "core",   "empty", "std",   "all")
 
 NoScript(name) == <<>>
 
@@ -233,9 +243,12 @@ Extend(tok) ==
     \* a signature pushed after a signature check could change what that
     \* earlier check signed or deleted: not enumerated
     /\ (tok.op = "PUSH" /\ tok.e.t = "sig") => ~\E j \in 1..Len(prog) : prog[j].op \in SigCheckOps
+    /\ RunDef(run).grow = "skip" => /\ (Len(prog) = 0 => tok = Op("OP_0"))
+                                    /\ (Len(prog) = 1 => tok = Op("OP_IF"))
     /\ prog' = Append(prog, tok)
     /\ UNCHANGED <<run, init>>
     /\ res' = Group(UNION { {<<t, Step(t, init, prog, g.s, tok)>> : t \in g.cf} : g \in {h \in res : Alive(h)} })
+    /\ RunDef(run).grow = "alive" => {g \in res' : Alive(g)} # {}
 
 Next == \E tok \in AlphaOf(RunDef(run).alpha) : Extend(tok)
 
